@@ -108,6 +108,9 @@ func c13Key(next bool, bm []uint64, i, e int) string {
 }
 
 func genC13(g *Gen) {
+	// sessions on one held slice first (c13w.go)
+	genC13Sessions(g)
+
 	one := func(bm []uint64, i, e int, bucket string) {
 		n := 64 * len(bm)
 		if !(0 <= i && i <= e && e <= n && i < n) {
@@ -280,4 +283,7 @@ func genC13(g *Gen) {
 			one(bm, i, e, "rand")
 		}
 	}
+
+	// the widening: sparse / large / held bitmaps, walks, duality (c13w.go)
+	genC13w(g)
 }
